@@ -13,6 +13,7 @@ import (
 
 type c05Case struct {
 	Bytes string `json:"bytes"`
+	Raw   []byte `json:"raw,omitempty"` // the residues when they are not valid UTF-8 text (replaces Bytes)
 	Feats []Feat `json:"feats"`
 }
 
@@ -68,6 +69,9 @@ func reverseBuggySites(l Loc, L int) Loc {
 
 func c05Check(c c05Case) *Violation {
 	orig := []byte(c.Bytes)
+	if len(c.Raw) > 0 {
+		orig = c.Raw
+	}
 	L := len(orig)
 	mk := func() gts.Sequence { return gts.New(nil, featsToGts(c.Feats), append([]byte(nil), orig...)) }
 	var rev, revrev, comp, compcomp, rc gts.Sequence
@@ -246,7 +250,7 @@ func c05Classify(c c05Case) (bool, []string) {
 }
 
 func c05KF(c c05Case, v *Violation) []string {
-	L := len(c.Bytes)
+	L := maxInt(len(c.Bytes), len(c.Raw))
 	var sigs []string
 	switch v.Kind {
 	case "site", "involution-site":
@@ -344,6 +348,19 @@ func TestC05(t *testing.T) {
 	if t.Failed() {
 		return
 	}
+	// any byte: a residue string is bytes, not text - every byte value, alone and in runs, between IUPAC letters
+	eb := enumPart(t, c05Prop, st, "every-byte-value")
+	for b := 0; b < 256; b++ {
+		x := byte(b)
+		raw := []byte{'A', 'C', x, 'G', 'T', 'a', x, x, 'c', 'k', x}
+		ff := []Feat{{Key: "gene", Loc: lrg(0, len(raw)), Quals: [][]string{{"label", "f00"}}},
+			{Key: "CDS", Loc: lco(ljn(lrg(1, 4), lrg(5, 8))), Quals: [][]string{{"label", "f01"}}},
+			{Key: "misc_feature", Loc: lrg(2, 3), Quals: [][]string{{"label", "f02"}}}}
+		if !eb.try(c05Case{Raw: raw, Feats: ff}) {
+			return
+		}
+	}
+	eb.done(true)
 	// arity sweep: joins and orders of every arity 1..6 built from disjoint, non-abutting single-base and
 	// two-base parts over L=12 (13 for odd positions), plain and complemented, every partial combination on the
 	// first and last part, in ascending and in shuffled part order.
